@@ -51,6 +51,8 @@ func main() {
 		}
 	case "selftest":
 		os.Exit(cmdSelftest(os.Args[2:]))
+	case "alpharename":
+		os.Exit(cmdAlphaRename(os.Args[2:]))
 	default:
 		usage()
 	}
